@@ -125,11 +125,12 @@ fn fed_exactly(n: usize, v: &[u8; 1000], pre: &[u8]) {
 //@ also: C03
 //@ desc: hash_immutable feeds exactly the BEP44 encoding into SHA-1 at every length-prefix boundary: for values of 0, 1, 9, 10, 99, 100, 999 and 1000 bytes the bytes given to the hasher are the decimal length, ':' and the value (first and last value byte checked), nothing is truncated or added, and the returned id is that hasher's digest; so a 1000-byte value is stored under SHA1("1000:" v)
 //@ bounds: the eight stated lengths (concrete), value bytes symbolic (two symbolic bytes: first and last position); SHA-1 itself abstracted (Sha1::update records, Sha1::digest uninterpreted: bound by C02.O3a-c); unwind 8
-//@ stubs: sha1_smol::Sha1::update -> probe recording the input; sha1_smol::Sha1::digest -> fixed digest
+//@ stubs: sha1_smol::Sha1::update -> probe recording the input; sha1_smol::Sha1::digest -> fixed digest; <usize as Display>::fmt -> plain decimal writer (the format! machinery itself is real)
 //@ functions: hash_immutable (length prefix formatting, buffer assembly)
 #[kani::proof]
 #[kani::stub(sha1_smol::Sha1::update, sha_update_probe)]
 #[kani::stub(sha1_smol::Sha1::digest, sha_digest_probe)]
+#[kani::stub(<usize as std::fmt::Display>::fmt, crate::verif_env::dec::usize_display)]
 #[kani::unwind(8)]
 fn c02_o3d_hash_input_boundaries() {
     let mut v = [0x61u8; 1000];
